@@ -1331,7 +1331,9 @@ func (p *parser) parseAttribute() (*Attribute, error) {
 		att.Type = AttributeEnum
 		t = p.scan()
 		if !t.isString() {
-			return nil, p.errorf("expected enum attribute values")
+			// an enum attribute may have no values
+			p.unscan()
+			break
 		}
 		att.EnumValues = append(att.EnumValues, t.value)
 		for {
